@@ -21,7 +21,7 @@ _tus = [
 _runs = [
     run("c16_thr", shards=6, min_cases={"quick": 252, "thorough": 567}),
     # every Otsu case that dies (F18) costs one restart of its shard
-    run("c16_otsu", shards=16, min_cases={"quick": 700, "thorough": 3000}, max_restarts=600),
+    run("c16_otsu", shards=16, min_cases={"quick": 700, "thorough": 2800}, max_restarts=600),
     run("c16_morph0", shards=4, min_cases={"quick": 104, "thorough": 290}),
     run("c16_morph1", shards=4, min_cases={"quick": 199, "thorough": 577}),
 ]
